@@ -11,7 +11,8 @@
                  cpar = "novalue" for an object that was never flushed: its history reports every value, even None, as added)
      hp[c]       the `hasparent` flag of c for P.children: unknown | no | <last parent>
      orph        C._orphaned_outside_of_session           marked  session.deleted       mod  InstanceState.modified
-     dbp, dbc    rows inside the session's transaction    ("absent" = no row)
+     val[c]      a plain data column c.val ("v0" | "v1"), cval its committed value ("novalue" until the first flush)
+     dbp, dbc, dbv   rows inside the session's transaction: parent keys, child FK, child val   ("absent" = no row)
      dead        the history ended with an exception whose partial effects are not modelled (flush failure, cascade into a
                  deleted object, Session.delete()/expunge() of an already deleted object)
    Session: autoflush off.  All relationship attributes are loaded/initialised (new objects are built with children=[],
@@ -46,10 +47,11 @@ Count(q, x) == Cardinality({i \in 1..Len(q) : q[i] = x})
 NewSt == [life |-> [o \in Objs |-> "transient"], coll |-> [p \in Ps |-> <<>>], parent |-> [c \in Cs |-> None],
           pid |-> [c \in Cs |-> None], ccoll |-> [p \in Ps |-> {}], cpar |-> [c \in Cs |-> NoValue], cpid |-> [c \in Cs |-> None],
           hp |-> [c \in Cs |-> "unknown"], orph |-> {}, marked |-> {}, mod |-> Objs,
+          val |-> [c \in Cs |-> "v0"], cval |-> [c \in Cs |-> NoValue], dbv |-> [c \in Cs |-> "absent"],
           dbp |-> {}, dbc |-> [c \in Cs |-> "absent"], dead |-> FALSE, err |-> "ok",
           dupseen |-> FALSE]       \* ghost: some list has held the same child twice (C37 finding, DESIGN 6)
 \* a fresh session after commit: every row loaded (both sides), objects without a row are new transient instances
-Reload(dbp, dbc) ==
+Reload(dbp, dbc, dbv) ==
    [NewSt EXCEPT !.life = [o \in Objs |-> IF o \in dbp \/ (o \in Cs /\ dbc[o] # "absent") THEN "persistent" ELSE "transient"],
                  !.coll = [p \in Ps |-> IF p \in dbp THEN SelectSeq(CAll, LAMBDA c : c \in Cs /\ dbc[c] = p) ELSE <<>>],
                  !.ccoll = [p \in Ps |-> IF p \in dbp THEN {c \in Cs : dbc[c] = p} ELSE {}],
@@ -58,10 +60,13 @@ Reload(dbp, dbc) ==
                  !.pid = [c \in Cs |-> IF dbc[c] = "absent" THEN None ELSE dbc[c]],
                  !.cpid = [c \in Cs |-> IF dbc[c] = "absent" THEN None ELSE dbc[c]],
                  !.mod = {o \in Objs : ~(o \in dbp \/ (o \in Cs /\ dbc[o] # "absent"))},
-                 !.dbp = dbp, !.dbc = dbc]
+                 !.val = [c \in Cs |-> IF dbc[c] = "absent" THEN "v0" ELSE dbv[c]],
+                 !.cval = [c \in Cs |-> IF dbc[c] = "absent" THEN NoValue ELSE dbv[c]],
+                 !.dbp = dbp, !.dbc = dbc, !.dbv = dbv]
 \* the "loaded" initial database: every parent has a row; children alternate  first parent / no parent / second parent ...
 LoadedDbc == [c \in Cs |-> LET i == CHOOSE i \in 1..Len(CAll) : CAll[i] = c
                            IN IF i % 3 = 1 THEN PAll[1] ELSE IF i % 3 = 2 /\ Nullable THEN None ELSE PAll[NP]]
+LoadedDbv == [c \in Cs |-> "v0"]
 R(s, r) == [st |-> s, ret |-> IF s.dead THEN s.err ELSE r]
 Die(s, e) == [s EXCEPT !.dead = TRUE, !.err = e]
 InSess(s, o) == s.life[o] \in {"pending", "persistent"}
@@ -79,6 +84,8 @@ ScalarHist(cur, com) == IF Val(cur) = Val(com) /\ com # NoValue THEN <<{}, Val(c
                         ELSE IF Val(cur) = Val(com) THEN <<{}, {}, {}>>          \* never-flushed object, value None: added=[None], observed as empty
                         ELSE <<Val(cur), {}, Val(com)>>
 Hist(s) == [o \in Objs |-> IF o \in Ps THEN <<HistAdded(s, o), HistUnch(s, o), HistDel(s, o)>> ELSE ScalarHist(s.parent[o], s.cpar[o])]
+ValHist(s) == [c \in Cs |-> IF s.cval[c] = NoValue THEN <<{s.val[c]}, {}, {}>>
+                           ELSE IF s.val[c] = s.cval[c] THEN <<{}, {s.val[c]}, {}>> ELSE <<{s.val[c]}, {}, {s.cval[c]}>>]
 PidHist(s) == [c \in Cs |-> IF s.pid[c] = s.cpid[c] THEN <<{}, Val(s.pid[c]), {}>> ELSE <<Val(s.pid[c]), {}, Val(s.cpid[c])>>]
 \* ---------------------------------------------------------------- Session.add / save-update cascade
 \* get_all_pending: current members and the members removed since the last commit (history.deleted) are both cascaded
@@ -144,6 +151,7 @@ DoSetParent(s, c, np) ==
                s2 == IF old # None THEN UnlinkFromOld(s1, c, old) ELSE s1
                s3 == IF np # None THEN [s2 EXCEPT !.hp[c] = np, !.coll[np] = Append(@, c), !.mod = @ \cup {np}] ELSE s2
            IN R([s3 EXCEPT !.parent[c] = np], "ok")
+DoSetVal(s, c, v) == R([s EXCEPT !.val[c] = v, !.mod = @ \cup {c}], "ok")
 RECURSIVE ReplaceIn(_, _, _, _)
 ReplaceIn(s, p, old, q) ==     \* bulk_replace: append for new members, append_wo_mutation (cascade only) for kept ones
    IF q = <<>> THEN s
@@ -205,13 +213,17 @@ FlushCore(s) ==
        \* DML
        insP == {p \in usave \cap Ps : s1.life[p] = "pending"}
        insC == {c \in usave \cap Cs : s1.life[c] = "pending"}
-       updC == {c \in usave \cap Cs : s1.life[c] = "persistent" /\ pidC[c] # s1.cpid[c]}
+       updC == {c \in usave \cap Cs : s1.life[c] = "persistent" /\ (pidC[c] # s1.cpid[c] \/ s1.val[c] # s1.cval[c])}
        dbp2 == (s1.dbp \cup insP) \ udel
        dbc2 == [c \in Cs |-> IF c \in udel THEN "absent" ELSE IF c \in insC \cup updC THEN pidC[c] ELSE s1.dbc[c]]
+       dbv2 == [c \in Cs |-> IF c \in udel THEN "absent" ELSE IF c \in insC \cup updC THEN s1.val[c] ELSE s1.dbv[c]]
        sound == (\A c \in Cs : dbc2[c] \in Ps => dbc2[c] \in dbp2) /\ (Nullable \/ \A c \in Cs : dbc2[c] # None)
-       dml == {<<"INSERT", p, "-">> : p \in insP} \cup {<<"INSERT", c, pidC[c]>> : c \in insC} \cup {<<"UPDATE", c, pidC[c]>> : c \in updC}
-              \cup {<<"DELETE", o, "-">> : o \in udel}
-       s2 == [s1 EXCEPT !.pid = pidC, !.mod = (@ \cup touched) \ usave, !.dbp = dbp2, !.dbc = dbc2,
+       \* statement, row, FK parameter, val parameter ("-" = column not written)
+       dml == {<<"INSERT", p, "-", "-">> : p \in insP} \cup {<<"INSERT", c, pidC[c], s1.val[c]>> : c \in insC}
+              \cup {<<"UPDATE", c, IF pidC[c] # s1.cpid[c] THEN pidC[c] ELSE "-", IF s1.val[c] # s1.cval[c] THEN s1.val[c] ELSE "-">> : c \in updC}
+              \cup {<<"DELETE", o, "-", "-">> : o \in udel}
+       s2 == [s1 EXCEPT !.pid = pidC, !.mod = (@ \cup touched) \ usave, !.dbp = dbp2, !.dbc = dbc2, !.dbv = dbv2,
+                        !.cval = [c \in Cs |-> IF c \in usave THEN s1.val[c] ELSE s1.cval[c]],
                         !.life = [o \in Objs |-> IF o \in udel THEN "deleted" ELSE IF o \in usave THEN "persistent" ELSE s1.life[o]],
                         !.marked = @ \ udel,
                         !.ccoll = [p \in Ps |-> IF p \in usave THEN Range(s1.coll[p]) ELSE s1.ccoll[p]],
@@ -256,17 +268,18 @@ RemoveA == Enabled("Remove") /\ \E p \in Ps, c \in Cs : c \in Range(st.coll[p])
 PopA == Enabled("Pop") /\ \E p \in Ps : Len(st.coll[p]) > 0 /\ \E i \in {0, Len(st.coll[p]) - 1} :
                                  Step("Pop", <<p, i>>, R(RemoveAt(st, p, i + 1, TRUE), "ok"), {})
 ReplaceA == Enabled("Replace") /\ \E p \in Ps, q \in Seqs2(Cs) : q # st.coll[p] /\ Step("Replace", <<p>> \o q, DoReplace(st, p, q), {})
+SetValA == Enabled("SetVal") /\ \E c \in Cs, v \in {"v0", "v1"} : v # st.val[c] /\ Step("SetVal", <<c, v>>, DoSetVal(st, c, v), {})
 SetParentA == Enabled("SetParent") /\ \E c \in Cs, np \in Ps \cup {None} : Step("SetParent", <<c, np>>, DoSetParent(st, c, np), {})
 FlushA == Enabled("Flush") /\ \E f \in {FlushCore(st)} : Step("Flush", <<>>, [st |-> f.st, ret |-> W(f.ret, f.warn)], f.dml)
 CommitReloadA == Enabled("CommitReload") /\ \E f \in {CommitLoop(st)} :
-                    Step("CommitReload", <<>>, [st |-> IF f.st.dead THEN f.st ELSE Reload(f.st.dbp, f.st.dbc), ret |-> W(f.ret, f.warn)], f.dml)
+                    Step("CommitReload", <<>>, [st |-> IF f.st.dead THEN f.st ELSE Reload(f.st.dbp, f.st.dbc, f.st.dbv), ret |-> W(f.ret, f.warn)], f.dml)
 InitStates == (IF InitMode \in {"empty", "both"} THEN {NewSt} ELSE {})
-              \cup (IF InitMode \in {"loaded", "both"} THEN {Reload(Ps, LoadedDbc)} ELSE {})
+              \cup (IF InitMode \in {"loaded", "both"} THEN {Reload(Ps, LoadedDbc, LoadedDbv)} ELSE {})
 Init == st \in InitStates /\ last = [a |-> "init", arg |-> <<>>, ret |-> "ok", dml |-> {}]
-Next == Add \/ Delete \/ Expunge \/ AppendA \/ InsertA \/ RemoveA \/ PopA \/ ReplaceA \/ SetParentA \/ FlushA \/ CommitReloadA
+Next == SetValA \/ Add \/ Delete \/ Expunge \/ AppendA \/ InsertA \/ RemoveA \/ PopA \/ ReplaceA \/ SetParentA \/ FlushA \/ CommitReloadA
 Spec == Init /\ [][Next]_vars
 View == st
-Obs(s) == [hist |-> Hist(s), pidhist |-> PidHist(s), insess |-> {o \in Objs : InSess(s, o)}]
+Obs(s) == [hist |-> Hist(s), pidhist |-> PidHist(s), valhist |-> ValHist(s), insess |-> {o \in Objs : InSess(s, o)}]
 Emit == PrintT(ToJson([from |-> st, act |-> last', to |-> st', obs |-> Obs(st')]))
 InitEmit == Init /\ PrintT(ToJson([init |-> st]))
 Depth == TLCGet("level") <= MaxDepth
@@ -278,14 +291,16 @@ NoDuplicates == \A p \in Ps : Len(st.coll[p]) = Cardinality(Range(st.coll[p]))
 BothSides_NoDup == ~st.dupseen => BothSides          \* holds on every history in which no list ever held a child twice
 \* ---- C36: committed values change only when the unit of work writes them; flush persists exactly the history it found
 CommittedOnlyAtFlush == [][last'.a \notin {"Flush", "CommitReload"} =>
-                            (st'.dead \/ (st'.ccoll = st.ccoll /\ st'.cpar = st.cpar /\ st'.cpid = st.cpid /\ st'.dbp = st.dbp /\ st'.dbc = st.dbc))]_vars
+                            (st'.dead \/ (st'.ccoll = st.ccoll /\ st'.cpar = st.cpar /\ st'.cpid = st.cpid /\ st'.cval = st.cval
+                                          /\ st'.dbp = st.dbp /\ st'.dbc = st.dbc /\ st'.dbv = st.dbv))]_vars
 \* after a successful flush no session member has history left, and its row equals its attributes
 FlushClearsHistory == (last.a = "Flush" /\ Ok) =>
       \A o \in Objs : (InSess(st, o) /\ o \notin st.marked) =>
-            IF o \in Ps THEN HistAdded(st, o) = {} /\ HistDel(st, o) = {} ELSE (st.parent[o] = st.cpar[o] /\ st.pid[o] = st.cpid[o] /\ st.dbc[o] = st.pid[o])
+            IF o \in Ps THEN HistAdded(st, o) = {} /\ HistDel(st, o) = {} ELSE (st.parent[o] = st.cpar[o] /\ st.pid[o] = st.cpid[o] /\ st.dbc[o] = st.pid[o] /\ st.val[o] = st.cval[o] /\ st.dbv[o] = st.val[o])
 \* a row changes only if the object had net history (or was new / deleted): set-back-to-original writes nothing
 NoHistoryNoWrite == [][(last'.a = "Flush" /\ ~st'.dead) =>
-      \A c \in Cs : (st.life[c] = "persistent" /\ st'.life[c] = "persistent" /\ st'.dbc[c] # st.dbc[c]) =>
+      /\ \A c \in Cs : (st.life[c] = "persistent" /\ st'.life[c] = "persistent" /\ st'.dbv[c] # st.dbv[c]) => st.val[c] # st.cval[c]
+      /\ \A c \in Cs : (st.life[c] = "persistent" /\ st'.life[c] = "persistent" /\ st'.dbc[c] # st.dbc[c]) =>
              (st.parent[c] # st.cpar[c] \/ st.pid[c] # st.cpid[c] \/ \E p \in Ps : c \in HistAdded(st, p) \cup HistDel(st, p) \/ (p \in st.marked /\ c \in st.ccoll[p]))]_vars
 \* ---- C30: after a successful flush the rows equal the in-memory graph over the session's members
 RowsEqualGraph == (last.a \in {"Flush", "CommitReload"} /\ Ok) =>
@@ -347,5 +362,6 @@ NoRowOfGoneParent == [][(last'.a = "Flush" /\ ~st'.dead /\ DOrph) =>
 MarkedArePersistent == \A o \in st.marked : st.life[o] = "persistent"
 TypeOK == /\ \A c \in Cs : st.parent[c] \in Ps \cup {None} /\ st.pid[c] \in Ps \cup {None} /\ st.dbc[c] \in Ps \cup {None, "absent"}
           /\ \A p \in Ps : Range(st.coll[p]) \subseteq Cs
+          /\ \A c \in Cs : st.val[c] \in {"v0", "v1"} /\ st.dbv[c] \in {"v0", "v1", "absent"} /\ (st.dbv[c] = "absent" <=> st.dbc[c] = "absent")
           /\ st.dbp \subseteq Ps
 =============================================================================
